@@ -7,6 +7,7 @@ Theorems of coq/C18 + correspondence / property-on-impl for
   kind 4  AnamEmpirical (normal-score fit) forward / backward
   kind 5  Rotation rotateDirect / rotateInverse
   kind 6  hermiteCondExpElement with 1-8 coefficients, under AddressSanitizer
+  kind 7  AnamEmpirical / AnamHermite fits of degenerate data (constant, single, undefined), under AddressSanitizer
 
 Two-stage correspondence: the harness runs first and returns its answers together with the oracles the model needs
 (eigen-pairs, square roots, fitted coefficients and bounds, tables); the model case = inputs + oracles.
@@ -67,11 +68,19 @@ def gen_pca(ctx, rng, quick):
         elif dist == 'ties': u = [Fraction(rng.randint(0, 2)) for _ in range(k)]
         else: u = [Fraction(rng.randint(-2 ** 20, 2 ** 20), 2 ** rng.randint(0, 12)) for _ in range(k)]
         for i in range(nvar): cols[i][s] = sum(A[i][j] * u[j] for j in range(k)) + rng.choice([0, 0, 100, -37])* (1 if i == 0 else 0)
-    p_na = rng.choice([0, 0, .15, .3])       # heterotopic samples: some variables undefined
+    degen = rng.random() < .08 and nvar >= 1
+    if degen:
+        how = rng.choice(['constant', 'dependent', 'few']) if nvar >= 2 else 'constant'
+        if how == 'constant': cols[rng.randrange(nvar)] = [Fraction(7)] * n
+        elif how == 'dependent': cols[nvar - 1] = [cols[0][s] * 2 - cols[nvar - 2][s] * 3 + 1 for s in range(n)] if nvar >= 3 else [cols[0][s] * 2 + 1 for s in range(n)]
+        else:
+            n = nvar; cols = [c[:n] for c in cols]
+        dist = 'singular-' + how
+    p_na = 0 if degen else rng.choice([0, 0, .15, .3])       # heterotopic samples: some variables undefined
     for s in range(n):
         if rng.random() < p_na:
             for i in rng.sample(range(nvar), rng.randint(1, nvar)): cols[i][s] = None
-    sel = [rng.random() < .8 for _ in range(n)] if rng.random() < .4 else []
+    sel = [rng.random() < .8 for _ in range(n)] if (rng.random() < .4 and not degen) else []
     xs = [Fraction(rng.randint(0, 40), 2) for _ in range(n)]; ys = [Fraction(rng.randint(0, 40), 2) for _ in range(n)]
     mode = rng.choice([0, 0, 1])
     hmin = Fraction(rng.choice([0, 0, 1, 2])); hmax = hmin + rng.choice([3, 5, 8, 100]) + Fraction(1, 4)
@@ -103,12 +112,30 @@ def sample_cov(rows):
 def check_pca(ctx, py, im, mo, site):
     nvar, n, mode = py['nvar'], py['n'], py['mode']
     name = 'pca' if mode == 0 else 'maf'
-    iso, niso, mean_m, var_m, c0_m, z2f_m, f2z_m, fac_m, back_m, resid, xback_m = mo
+    iso, niso, mean_m, var_m, c0_m, z2f_m, f2z_m, fac_m, back_m, resid, xback_m, reg = mo
     mean_m = vq(mean_m); var_m = vq(var_m); resid = vq(resid)
     if niso < 2:
         site.excluded = True; return
+    regular, kappa = reg[0] == 1, float(unq(reg[1]))
+    if not regular:
+        # exactly singular covariance (constant / dependent variables, too few samples): the transform to normalised factors is not
+        # invertible. Either the computation is refused, or the round trip must still return the starting values.
+        ctx.dist('pca_singular_covariance')
+        if im[0] != 0: return
+        back_i = rows_d(im[13])
+        scale = max([abs(float(x)) for c in py['cols'] for x in c if x is not None] + [1.0])
+        for s in range(n):
+            if not iso[s]: continue
+            for v in range(nvar):
+                z = py['cols'][v][s]
+                if back_i[s] is None or abs(float(back_i[s][v]) - float(z)) > 1e-6 * (scale + abs(float(z))):
+                    site.spec.append(('%s:singular-covariance' % name, '%s computation returns 0 on a singular covariance matrix (exact rank deficiency: constant or dependent variables, or too few '
+                                      'isotopic samples); sample %d variable %d: z = %.9g, dbF2Z(dbZ2F(z)) = %s' % (name, s, v, float(z), 'undefined' if back_i[s] is None else '%.9g' % float(back_i[s][v]))))
+                    return
+        return
     if im[0] != 0:
-        site.spec.append(('%s:compute-fails' % name, '%s computation returns %d on %d isotopic samples' % (name, im[0], niso))); return
+        if kappa > 1e8: site.excluded = True; return
+        site.spec.append(('%s:compute-fails' % name, '%s computation returns %d on %d isotopic samples (condition number of the covariance %.3g)' % (name, im[0], niso, kappa))); return
     rc, eigval, eigvec, mean, sigma, z2f, f2z, c0, gh, sq, r1, fac, r2, back, ncolnew, r3, xback = im
     eigval = vd(eigval); mean = vd(mean); sigma = vd(sigma); sq = vd(sq)
     lam_ok = all(l is not None and l > 0 for l in eigval)
@@ -262,12 +289,13 @@ def anam_model_case(py, im):
     act.sort(key=lambda i: undy(c[4][i]))
     step = max(1, len(act) // 14)
     py['dq'] = sorted(set(act[::step] + act[:2] + act[-2:]))
-    return [2, c[3], psi, sq, az, ay, pz, py_, c[6], c[7] + [c[4][i] for i in py['dq']]]
+    pb = im[18] if len(im) > 18 and im[18] != [] and all(x != [] for x in im[18]) else []
+    return [2, c[3], psi, sq, az, ay, pz, py_, c[6], c[7] + [c[4][i] for i in py['dq']], pb]
 
 def check_anam(ctx, py, im, mo, site):
     c = py['case']; nb = py['nb']
-    rc, psi, az, ay, pz, pyi, sq, t2r_i, r2t_i, r1, ycol, r2, zcol, r3, n3, r4, n4, loccol = im
-    t2r_m, r2t_m, dzmax = mo
+    rc, psi, az, ay, pz, pyi, sq, t2r_i, r2t_i, r1, ycol, r2, zcol, r3, n3, r4, n4, loccol = im[:18]
+    t2r_m, r2t_m, dzmax, bnd_m = mo
     dzmax = float(unq(dzmax))
     azv = [undy(az[0]), undy(az[1])]; ayv = [undy(ay[0]), undy(ay[1])]; pzv = [undy(pz[0]), undy(pz[1])]
     yq = py['yq']; zq = py['zq']; data = py['data']; sel = py['sel']; n = len(data)
@@ -320,6 +348,19 @@ def check_anam(ctx, py, im, mo, site):
                 site.close('rawToTransformValue(%s)' % float(z), iv, ym, 1e-12)
         else:
             site.close('rawToTransformValue(%s) [outside practical interval]' % float(z), iv, ym, 1e-9, 1.0)
+    # --- _defineBounds: the bounds reported by the fit against the model's scan of the raw expansion
+    if py['mode'] == 0 and bnd_m != []:
+        bm = [float(unq(x)) for x in bnd_m[0]]; lo_kind, hi_kind, marg = bnd_m[1], bnd_m[2], float(unq(bnd_m[3]))
+        ctx.dist('bounds_lo_%s' % ['at-ymin', 'turning-point', 'met-on-grid'][lo_kind]); ctx.dist('bounds_hi_%s' % ['at-ymax', 'turning-point', 'met-on-grid'][hi_kind])
+        if marg <= 1e-10:
+            site.tie = getattr(site, 'tie', 0) + 1
+        else:
+            bi = [undy(az[0]), undy(az[1]), undy(ay[0]), undy(ay[1]), undy(pz[0]), undy(pz[1]), undy(pyi[0]), undy(pyi[1])]
+            names = ['az.min', 'az.max', 'ay.min', 'ay.max', 'pz.min', 'pz.max', 'py.min', 'py.max']
+            for k in range(8):
+                tolb = 1e-9 * (abs(bm[k]) + zspan) if k in (0, 1, 4, 5) else 1e-6
+                if bi[k] is None or abs(float(bi[k]) - bm[k]) > tolb:
+                    site.drift.append('_defineBounds %s: impl %s model %.12g' % (names[k], fl(bi[k]), bm[k]))
     # --- properties on impl (fitted anamorphosis with bounds: the validity interval is [az.min, az.max])
     if py['mode'] == 0 and py['flagBound']:
         pyv = [undy(pyi[0]), undy(pyi[1])]
@@ -546,6 +587,22 @@ def check_condexp(ctx, py, im, mo, site):
         site.spec.append(('hermiteCondExpElement:expansion', 'hermiteCondExpElement(%s, 0, %s) = %s, sum psi_n H_n(y) with the orthonormal Hermite polynomials = %.15g'
                           % (float(py['y']), [float(x) for x in py['psi']], fl(v), float(m))))
 
+# ----------------------------------------------------------------------------- kind 7: fits of degenerate data under AddressSanitizer
+def gen_degenerate(ctx, rng, quick):
+    which = rng.randint(0, 1)
+    v = Fraction(rng.randint(-20, 20), 4)
+    data = rng.choice([[v], [v] * rng.randint(2, 6), [None, None], [None, v, v], []])
+    nb = rng.choice([3, 5, 12])
+    ctx.dist('degenerate_fit_%s' % ('AnamEmpirical' if which == 0 else 'AnamHermite'))
+    return {'which': which, 'nb': nb, 'data': data}, [7, which, nb, [dy(x) for x in data]]
+
+def check_degenerate(ctx, py, im, site):
+    name = 'AnamEmpirical' if py['which'] == 0 else 'AnamHermite'
+    rc, threw = im
+    desc = '%s fit of %s' % (name, [fl(x) for x in py['data']])
+    if threw: site.spec.append(('%s:fit-throws' % name, '%s: an exception escapes fitFromArray (fewer than two distinct defined values must be refused with an error code)' % desc))
+    elif rc == 0: site.spec.append(('%s:fit-accepts-degenerate-data' % name, '%s returns 0' % desc))
+
 # ----------------------------------------------------------------------------- driver
 def run(ctx):
     quick = ctx.quick()
@@ -560,7 +617,7 @@ def run(ctx):
     pys = []; pys_asan = []
     for line in load_corpus(ctx):
         py = py_from_case(line); py['corpus'] = True
-        (pys_asan if py['kind'] == 6 else pys).append(py); ctx.dist('corpus')
+        (pys_asan if py['kind'] in (6, 7) else pys).append(py); ctx.dist('corpus')
     for g, cnt in gens:
         for _ in range(cnt):
             py, case = g(ctx, rng, quick); py['kind'] = case[0]; py['case'] = case; pys.append(py)
@@ -574,6 +631,8 @@ def run(ctx):
         print('ERROR: ASan harness does not build'); sys.exit(3)
     for _ in range(24 if quick else 200):
         py, case = gen_condexp(ctx, rng, quick); py['kind'] = case[0]; py['case'] = case; py['asan'] = True; pys_asan.append(py)
+    for _ in range(16 if quick else 80):
+        py, case = gen_degenerate(ctx, rng, quick); py['kind'] = case[0]; py['case'] = case; py['asan'] = True; pys_asan.append(py)
     impl_a, logs_a = run_resilient(ctx, exe_asan, 'asan', [p['case'] for p in pys_asan], env={'ASAN_OPTIONS': 'detect_leaks=0:abort_on_error=0'})
     ctx.cov['asan_part_s'] = round(time.time() - t_asan, 1)
     ctx.log('ASan part: %d cases, %.1fs (of which library build %.1fs)' % (len(pys_asan), ctx.cov['asan_part_s'], ctx.cov['asan_lib_build_s']))
@@ -583,13 +642,21 @@ def run(ctx):
     for i, py in enumerate(pys):
         if impl[i] is None or (impl[i] and impl[i][0] == -997):
             log = logs[i] or ''
-            m = re.search(r'AddressSanitizer: ([a-z-]+)[^\n]*\n(?:[^\n]*\n){0,3}?\s*#0 \S+ in (\w+)', log)
-            if py.get('asan') and m:
+            m = re.search(r'AddressSanitizer: ([a-z-]+)[^\n]*\n(?:[^\n]*\n){0,3}?\s*#0 \S+ in ([\w:~]+)', log)
+            if py.get('asan') and m and py['kind'] == 7:
+                key = 'asan:%s:%s:degenerate-data' % (m.group(2), m.group(1))
+                text = 'AddressSanitizer %s in %s: %s fit of %s' % (m.group(1), m.group(2), 'AnamEmpirical' if py['which'] == 0 else 'AnamHermite(%d)' % py['nb'], [fl(x) for x in py['data']])
+            elif py.get('asan') and m:
                 key = 'asan:%s:%s:%d-coefficient-expansion' % (m.group(2), m.group(1), py['nb'])
                 text = 'AddressSanitizer %s in %s: hermiteCondExpElement(y, 0, psi) with %d coefficient(s)' % (m.group(1), m.group(2), py['nb'])
             else:
                 key = 'crash:%s' % KIND_NAME[py['kind']]; text = 'harness crashed / threw on a %s case: %s' % (KIND_NAME[py['kind']], log[-300:])
             ctx.violation(key, text, {'impl_case': sx_str(py['case']), 'log': log[-1500:]}); found_input = True
+            continue
+        if py['kind'] == 7:       # no model: the outcome itself is the verdict
+            site = Site(); check_degenerate(ctx, py, impl[i], site); ctx.count(sx_str(py['case']))
+            if site.spec:
+                ctx.violation(site.spec[0][0], site.spec[0][1], {'impl_case': sx_str(py['case'])}); found_input = True
             continue
         mc = MODEL_CASE[py['kind']](py, impl[i])
         if mc is None:
@@ -673,6 +740,7 @@ def py_from_case(c):
     elif k == 4: py.update({'data': [ud(x) for x in c[1]], 'yq': [ud(x) for x in c[2]], 'zq': [ud(x) for x in c[3]]})
     elif k == 5: py.update({'ndim': c[1], 'mode': c[2], 'vecs': [[ud(x) for x in v] for v in c[4]]})
     elif k == 6: py.update({'nb': len(c[3]), 'y': ud(c[1]), 'psi': [ud(x) for x in c[3]], 'asan': True})
+    elif k == 7: py.update({'which': c[1], 'nb': c[2], 'data': [ud(x) for x in c[3]], 'asan': True})
     return py
 
 def load_corpus(ctx):
@@ -680,7 +748,7 @@ def load_corpus(ctx):
     if not os.path.exists(p): return []
     return [sx_parse(l) for l in open(p) if l.strip() and not l.startswith('#')]
 
-KIND_NAME = {0: 'PCA', 1: 'hermitePolynomials', 2: 'AnamHermite', 3: 'normalScore', 4: 'AnamEmpirical', 5: 'Rotation', 6: 'hermiteCondExpElement'}
+KIND_NAME = {7: 'degenerate-fit', 0: 'PCA', 1: 'hermitePolynomials', 2: 'AnamHermite', 3: 'normalScore', 4: 'AnamEmpirical', 5: 'Rotation', 6: 'hermiteCondExpElement'}
 MODEL_CASE = {0: lambda py, im: pca_model_case_any(py, im), 1: hermite_model_case, 2: anam_model_case,
               3: lambda py, im: py['case'][:3], 4: emp_model_case, 5: rot_model_case, 6: condexp_model_case}
 CHECK = {0: check_pca, 1: check_hermite, 2: check_anam, 3: check_ns, 4: check_emp, 5: check_rot, 6: check_condexp}
